@@ -2,70 +2,57 @@ package main
 
 import (
 	"go/ast"
+	"go/token"
+	"sort"
 	"strings"
 )
 
-// C13: facts behaviour cannot cheaply reveal
-//   - comm/communication.go: the struct tag of WrappedMessage.From
-//   - comm/p2p/libp2p.go: in ProcessMessagesFromStream, the remote peer comes from the connection and `From` is overwritten
-//     AFTER unmarshalling and BEFORE subscribers are looked up
-//   - comm/p2p/gater.go: what each of the five hooks returns
-//   - topology/topology.go: order of the steps of NetworkTopology and the hash comparison
-//   - chains/evm/listener/eventHandlers/tss.go: order of the steps of RefreshEventHandler.HandleEvents, which event's hash is used
+// C13: facts behaviour cannot cheaply reveal. Every fact is an Option (`none` = anchor not found in an understood shape;
+// the correspondence ops then carry the clause alone). Located by SHAPE — exported type/field/method names of the
+// repository's API and of the libraries (WrappedMessage.From, RemotePeer, json.Unmarshal, GetSubscribers, IsAllowedPeer,
+// Decrypt, FetchRefreshEvents, NetworkTopology, StoreTopology, SetTopology, LoadPeers), statement forms, relations between
+// the identifiers that occur — never names of locals / receivers / unexported helpers, never log or error wording.
+//   fromTag        the json struct tag of WrappedMessage.From
+//   processSteps   ProcessMessagesFromStream: relative order of {unmarshal, From := <the connection's RemotePeer>, subscribers}
+//   gater          per hook: "member" (returns IsAllowedPeer of its peer parameter) | "true"
+//   providerSteps  NetworkTopology: relative order of {compare with the announced hash, decrypt, unmarshal}
+//   refreshSteps   HandleEvents: which event's hash ("last"), relative order of {events, empty-check, provider, store, gate, peers}
 func init() {
 	extractors["C13"] = func(o *Out) {
 		w := &o.Lean
-		// calls (by callee source text) in source order, restricted to the interesting ones
-		seq := func(fd *ast.FuncDecl, want map[string]string) []string {
+		type hit struct {
+			pos int
+			s   string
+		}
+		ordered := func(hs []hit) []string {
+			sort.Slice(hs, func(i, j int) bool { return hs[i].pos < hs[j].pos })
 			out := []string{}
-			if fd == nil {
-				return out
-			}
-			type hit struct {
-				pos int
-				s   string
-			}
-			hits := []hit{}
-			Walk(fd.Body, func(n ast.Node) bool {
-				switch x := n.(type) {
-				case *ast.CallExpr:
-					if tag, ok := want[Src(x.Fun)]; ok {
-						hits = append(hits, hit{int(x.Pos()), tag})
-					}
-				case *ast.AssignStmt:
-					for _, l := range x.Lhs {
-						if tag, ok := want["="+Src(l)]; ok {
-							hits = append(hits, hit{int(x.Pos()), tag + ":" + Src(x.Rhs[0])})
-						}
-					}
-				case *ast.IfStmt:
-					if tag, ok := want["if "+Src(x.Cond)]; ok {
-						hits = append(hits, hit{int(x.Pos()), tag})
-					}
-				}
-				return true
-			})
-			for i := 1; i < len(hits); i++ {
-				for j := i; j > 0 && hits[j].pos < hits[j-1].pos; j-- {
-					hits[j], hits[j-1] = hits[j-1], hits[j]
-				}
-			}
-			for _, h := range hits {
+			for _, h := range hs {
 				out = append(out, h.s)
 			}
 			return out
 		}
-		// ---- From tag
+		// ---------------------------------------------------------------- From tag
 		cf := o.ParseFile("comm/communication.go")
-		tag := ""
+		tag, tagOK := "", false
 		if cf != nil {
 			Walk(cf, func(n ast.Node) bool {
 				if ts, ok := n.(*ast.TypeSpec); ok && ts.Name.Name == "WrappedMessage" {
 					if st, ok := ts.Type.(*ast.StructType); ok {
 						for _, f := range st.Fields.List {
 							for _, nm := range f.Names {
-								if nm.Name == "From" && f.Tag != nil {
-									tag = strings.Trim(f.Tag.Value, "`")
+								if nm.Name == "From" {
+									tagOK = true
+									if f.Tag != nil {
+										// the json key only: `json:"-"` -> "-"
+										t := strings.Trim(f.Tag.Value, "`")
+										if i := strings.Index(t, `json:"`); i >= 0 {
+											rest := t[i+6:]
+											if j := strings.Index(rest, `"`); j >= 0 {
+												tag = rest[:j]
+											}
+										}
+									}
 								}
 							}
 						}
@@ -74,50 +61,273 @@ func init() {
 				return true
 			})
 		}
-		w.WriteString("def fromTag : String := " + LeanStr(tag) + "\n")
-		// ---- ProcessMessagesFromStream
+		if !tagOK {
+			o.Unavailable("fromTag", "type WrappedMessage with a field From not found")
+		}
+		w.WriteString("/-- the json key of `WrappedMessage.From` (\"\" = no json tag) -/\ndef fromTag : Option String := " + LeanOpt(tagOK, LeanStr(tag)) + "\n")
+
+		// ---------------------------------------------------------------- ProcessMessagesFromStream
 		lf := o.ParseFile("comm/p2p/libp2p.go")
-		ps := seq(FindFunc(lf, "Libp2pCommunication", "ProcessMessagesFromStream"), map[string]string{
-			"=remotePeerID": "remote", "json.Unmarshal": "unmarshal", "=wrappedMsg.From": "from", "c.GetSubscribers": "subscribers"})
-		w.WriteString("def processSteps : List String := " + LeanStrList(ps) + "\n")
-		// ---- gater
-		gf := o.ParseFile("comm/p2p/gater.go")
-		rets := []string{}
-		for _, m := range []string{"InterceptPeerDial", "InterceptSecured", "InterceptAddrDial", "InterceptAccept", "InterceptUpgraded"} {
-			fd := FindFunc(gf, "ConnectionGate", m)
-			r := "?"
-			if fd != nil && len(fd.Body.List) == 1 {
-				if rs, ok := fd.Body.List[0].(*ast.ReturnStmt); ok {
-					xs := []string{}
-					for _, e := range rs.Results {
-						xs = append(xs, Src(e))
+		var steps []string
+		stepsOK := false
+		for _, fd := range a2FuncsCalling(lf, "GetSubscribers") {
+			remoteVar := ""
+			isRemote := func(e ast.Expr) bool {
+				if c, ok := e.(*ast.CallExpr); ok && a2Method(c) == "RemotePeer" {
+					return true
+				}
+				return remoteVar != "" && a2Ident(e) == remoteVar
+			}
+			hs := []hit{}
+			msgVar := ""
+			Walk(fd.Body, func(n ast.Node) bool {
+				switch x := n.(type) {
+				case *ast.AssignStmt:
+					if len(x.Lhs) == 1 && len(x.Rhs) == 1 {
+						if c, ok := x.Rhs[0].(*ast.CallExpr); ok && a2Method(c) == "RemotePeer" && a2Ident(x.Lhs[0]) != "" {
+							remoteVar = a2Ident(x.Lhs[0])
+						}
+						if sel, ok := x.Lhs[0].(*ast.SelectorExpr); ok && sel.Sel.Name == "From" {
+							if isRemote(x.Rhs[0]) {
+								hs = append(hs, hit{int(x.Pos()), "from:=remote"})
+							} else {
+								hs = append(hs, hit{int(x.Pos()), "from:=other"})
+							}
+							msgVar = a2Ident(sel.X)
+						}
 					}
-					r = strings.Join(xs, ", ")
+				case *ast.CallExpr:
+					if a2Qualified(x) == "json.Unmarshal" {
+						hs = append(hs, hit{int(x.Pos()), "unmarshal"})
+					}
+					if a2Method(x) == "GetSubscribers" {
+						hs = append(hs, hit{int(x.Pos()), "subscribers"})
+					}
+				}
+				return true
+			})
+			steps = ordered(hs)
+			stepsOK = msgVar != "" && len(steps) >= 3
+			break
+		}
+		if !stepsOK {
+			o.Unavailable("processSteps", "no function with json.Unmarshal, an assignment to <msg>.From and GetSubscribers as direct statements")
+		}
+		w.WriteString("/-- ProcessMessagesFromStream: source order of unmarshal / `From :=` (remote = the connection's RemotePeer()) / subscriber lookup -/\n")
+		w.WriteString("def processSteps : Option (List String) := " + LeanOpt(stepsOK, LeanStrList(steps)) + "\n")
+
+		// ---------------------------------------------------------------- gater
+		gf := o.ParseFile("comm/p2p/gater.go")
+		hooks := []string{"InterceptPeerDial", "InterceptSecured", "InterceptAddrDial", "InterceptAccept", "InterceptUpgraded"}
+		rets := [][2]string{}
+		gaterOK := gf != nil
+		for _, m := range hooks {
+			fd := FindFunc(gf, "ConnectionGate", m)
+			kind := ""
+			if fd != nil && fd.Body != nil {
+				// the peer parameter: the one of type peer.ID
+				peerParam := ""
+				for _, p := range fd.Type.Params.List {
+					if Src(p.Type) == "peer.ID" && len(p.Names) == 1 {
+						peerParam = p.Names[0].Name
+					}
+				}
+				// what decides: a single `return <expr>[, …]`, or `x = <expr>; …; return x` with only logging in between
+				var decide ast.Expr
+				plain := true
+				named := ""
+				if fd.Type.Results != nil && len(fd.Type.Results.List) > 0 && len(fd.Type.Results.List[0].Names) == 1 {
+					named = fd.Type.Results.List[0].Names[0].Name
+				}
+				for _, st := range fd.Body.List {
+					switch s := st.(type) {
+					case *ast.ReturnStmt:
+						if len(s.Results) >= 1 {
+							if id := a2Ident(s.Results[0]); id != "" && id != "true" && id != "false" && decide != nil {
+								// returns the variable assigned before
+							} else {
+								decide = s.Results[0]
+							}
+						}
+					case *ast.AssignStmt:
+						if len(s.Lhs) == 1 && len(s.Rhs) == 1 && (a2Ident(s.Lhs[0]) == named || s.Tok == token.DEFINE) && decide == nil {
+							decide = s.Rhs[0]
+						} else {
+							plain = false
+						}
+					case *ast.IfStmt:
+						// an if that only logs (no return, no assignment) does not decide anything
+						Walk(s, func(n ast.Node) bool {
+							switch n.(type) {
+							case *ast.ReturnStmt, *ast.AssignStmt:
+								plain = false
+							}
+							return true
+						})
+					case *ast.ExprStmt:
+					default:
+						plain = false
+					}
+				}
+				if plain && decide != nil {
+					if c, ok := decide.(*ast.CallExpr); ok && a2Method(c) == "IsAllowedPeer" && len(c.Args) == 1 && peerParam != "" && a2Ident(c.Args[0]) == peerParam {
+						kind = "member"
+					} else if a2Ident(decide) == "true" {
+						kind = "true"
+					} else if a2Ident(decide) == "false" {
+						kind = "false"
+					}
 				}
 			}
-			rets = append(rets, m+": "+r)
+			if kind == "" {
+				gaterOK = false
+			}
+			rets = append(rets, [2]string{m, kind})
 		}
-		w.WriteString("def gaterReturns : List String := " + LeanStrList(rets) + "\n")
+		if !gaterOK {
+			o.Unavailable("gater", "a hook of ConnectionGate is missing or decides in a shape not understood (not a plain return of IsAllowedPeer(<peer param>) / true)")
+		}
+		w.WriteString("/-- what each hook of ConnectionGate returns: \"member\" = IsAllowedPeer of its peer parameter, \"true\" -/\n")
+		w.WriteString("def gater : Option (List (String × String)) := " + LeanOpt(gaterOK, a2LeanPairs(rets)) + "\n")
+
+		// ---------------------------------------------------------------- NetworkTopology
 		tf := o.ParseFile("topology/topology.go")
-		allowed := "?"
-		if fd := FindFunc(tf, "NetworkTopology", "IsAllowedPeer"); fd != nil {
-			allowed = Src(fd.Body)
+		var psteps []string
+		pOK := false
+		for _, fd := range a2FuncsCalling(tf, "Decrypt") {
+			if fd.Recv == nil || fd.Type.Params == nil {
+				continue
+			}
+			hashParam := ""
+			for _, p := range fd.Type.Params.List {
+				if Src(p.Type) == "string" && len(p.Names) == 1 {
+					hashParam = p.Names[0].Name
+				}
+			}
+			hs := []hit{}
+			Walk(fd.Body, func(n ast.Node) bool {
+				switch x := n.(type) {
+				case *ast.IfStmt:
+					// the comparison with the announced hash: a condition that contains `<something> != <hash param>` (either
+					// order) and whose body returns
+					cmp := false
+					Walk(x.Cond, func(m ast.Node) bool {
+						if be, ok := m.(*ast.BinaryExpr); ok && be.Op == token.NEQ && hashParam != "" {
+							l, r := a2Ident(be.X), a2Ident(be.Y)
+							if (l == hashParam && r != "" && r != hashParam) || (r == hashParam && l != "" && l != hashParam) {
+								cmp = true
+							}
+						}
+						return true
+					})
+					rets := false
+					Walk(x.Body, func(m ast.Node) bool {
+						if _, ok := m.(*ast.ReturnStmt); ok {
+							rets = true
+						}
+						return true
+					})
+					if cmp && rets {
+						hs = append(hs, hit{int(x.Pos()), "compare"})
+					}
+				case *ast.CallExpr:
+					switch {
+					case a2Method(x) == "Decrypt":
+						hs = append(hs, hit{int(x.Pos()), "decrypt"})
+					case a2Qualified(x) == "json.Unmarshal":
+						hs = append(hs, hit{int(x.Pos()), "unmarshal"})
+					case a2Qualified(x) == "hex.DecodeString":
+						hs = append(hs, hit{int(x.Pos()), "hexdecode"})
+					}
+				}
+				return true
+			})
+			psteps = ordered(hs)
+			has := map[string]bool{}
+			for _, s := range psteps {
+				has[s] = true
+			}
+			pOK = hashParam != "" && has["compare"] && has["decrypt"] && has["hexdecode"]
+			break
 		}
-		w.WriteString("def isAllowedPeer : String := " + LeanStr(allowed) + "\n")
-		// ---- NetworkTopology
-		nt := seq(FindFunc(tf, "TopologyProvider", "NetworkTopology"), map[string]string{
-			"t.fetcher.Get": "fetch", "io.ReadAll": "read", "strings.TrimSuffix": "trim", "hex.DecodeString": "hexdecode",
-			"sha256.New": "sha256", "hex.EncodeToString": "hexencode", `if hash != "" && eh != hash`: "compare",
-			"t.decrypter.Decrypt": "decrypt", "json.Unmarshal": "unmarshal", "ProcessRawTopology": "process"})
-		w.WriteString("def providerSteps : List String := " + LeanStrList(nt) + "\n")
-		// ---- HandleEvents
+		if !pOK {
+			o.Unavailable("providerSteps", "no method with a string parameter that hex-decodes, compares `x != <that parameter>` in a returning if, and calls Decrypt")
+		}
+		w.WriteString("/-- NetworkTopology: source order of hex decoding / the returning comparison with the announced hash / Decrypt / json.Unmarshal -/\n")
+		w.WriteString("def providerSteps : Option (List String) := " + LeanOpt(pOK, LeanStrList(psteps)) + "\n")
+
+		// ---------------------------------------------------------------- HandleEvents of the refresh handler
 		hf := o.ParseFile("chains/evm/listener/eventHandlers/tss.go")
-		he := seq(FindFunc(hf, "RefreshEventHandler", "HandleEvents"), map[string]string{
-			"eh.eventListener.FetchRefreshEvents": "events", "=hash": "hash", `if hash == ""`: "empty-check",
-			"eh.topologyProvider.NetworkTopology": "provider", "eh.topologyStore.StoreTopology": "store",
-			"eh.connectionGate.SetTopology": "gate", "p2p.LoadPeers": "peers", "eh.coordinator.Execute": "resharing"})
-		w.WriteString("def refreshSteps : List String := " + LeanStrList(he) + "\n")
-		o.Facts["refresh_steps"] = he
-		o.Facts["provider_steps"] = nt
+		var rsteps []string
+		which := ""
+		rOK := false
+		for _, fd := range a2FuncsCalling(hf, "FetchRefreshEvents") {
+			hs := []hit{}
+			hashVar, evVar := "", ""
+			// `X[len(X)-1]` / `X[0]`
+			pick := func(e ast.Expr) string {
+				ix, ok := e.(*ast.IndexExpr)
+				if !ok {
+					return ""
+				}
+				s := strings.ReplaceAll(Src(ix.Index), " ", "")
+				switch {
+				case s == "len("+Src(ix.X)+")-1":
+					return "last"
+				case s == "0":
+					return "first"
+				}
+				return "other"
+			}
+			Walk(fd.Body, func(n ast.Node) bool {
+				switch x := n.(type) {
+				case *ast.AssignStmt:
+					if len(x.Lhs) == 1 && len(x.Rhs) == 1 && a2Ident(x.Lhs[0]) != "" {
+						if p := pick(x.Rhs[0]); p != "" { // ev := events[len-1]
+							evVar, which = a2Ident(x.Lhs[0]), p
+						}
+						if sel, ok := x.Rhs[0].(*ast.SelectorExpr); ok && sel.Sel.Name == "Hash" {
+							if p := pick(sel.X); p != "" {
+								which = p
+								hashVar = a2Ident(x.Lhs[0])
+							} else if evVar != "" && a2Ident(sel.X) == evVar {
+								hashVar = a2Ident(x.Lhs[0])
+							}
+						}
+					}
+				case *ast.IfStmt:
+					c := strings.ReplaceAll(Src(x.Cond), " ", "")
+					if hashVar != "" && (c == hashVar+"==\"\"" || c == "\"\"=="+hashVar || c == "len("+hashVar+")==0" || c == "0==len("+hashVar+")") {
+						hs = append(hs, hit{int(x.Pos()), "empty-check"})
+					}
+				case *ast.CallExpr:
+					switch a2Method(x) {
+					case "FetchRefreshEvents":
+						hs = append(hs, hit{int(x.Pos()), "events"})
+					case "NetworkTopology":
+						if len(x.Args) == 1 && a2Ident(x.Args[0]) == hashVar && hashVar != "" {
+							hs = append(hs, hit{int(x.Pos()), "provider"})
+						}
+					case "StoreTopology":
+						hs = append(hs, hit{int(x.Pos()), "store"})
+					case "SetTopology":
+						hs = append(hs, hit{int(x.Pos()), "gate"})
+					case "LoadPeers":
+						hs = append(hs, hit{int(x.Pos()), "peers"})
+					}
+				}
+				return true
+			})
+			rsteps = ordered(hs)
+			rOK = which != "" && len(rsteps) == 6
+			break
+		}
+		if !rOK {
+			o.Unavailable("refreshSteps", "HandleEvents: event selection / empty check / NetworkTopology(<hash>) / StoreTopology / SetTopology / LoadPeers not all found as direct statements")
+		}
+		w.WriteString("/-- HandleEvents: which refresh event's hash is used, and the source order of the located steps -/\n")
+		w.WriteString("def refreshSteps : Option (String × List String) := " + LeanOpt(rOK, "("+LeanStr(which)+", "+LeanStrList(rsteps)+")") + "\n")
+		o.Facts["refresh_steps"] = rsteps
+		o.Facts["provider_steps"] = psteps
 	}
 }
